@@ -601,7 +601,7 @@ def correspond(run):
 
 def _correspond(run):
     quick = run.tier == "quick"
-    n = 300 if quick else 4000
+    n = 300 if quick else 12000
     cases = list(common.load_corpus(PROP)) + [gen_case(run.rng, big=(i % 25 == 24)) for i in range(n)]
     dis, spec_dis, inst, tokfail = [], [], [], []
     res = evaluate(cases)
